@@ -321,3 +321,19 @@ Proof.
   - vm_compute in E. injection E as <-. vm_compute. auto.
 Qed.
 
+
+(* the measure of a reachable state is below the fuel the correspondence check explores with
+   (corr/Stream.v: 60), so its verdicts never come from running out of fuel *)
+Lemma mu_bound rs s : reachable rs s -> (mu s <= resp_capn + 40)%nat.
+Proof.
+  intro R. pose proof (i_resp _ (inv_reachable _ _ R)) as B. unfold mu.
+  pose proof (w_opt_le (pCS s)). pose proof (w_opt_le (pCC s)). pose proof (w_opt_le (pCR s)).
+  pose proof (w_opt_le (pH s)). pose proof (w_opt_le (pHR s)). lia.
+Qed.
+
+Theorem exploration_never_runs_out_of_fuel rs s acc :
+  reachable rs s -> ~ In None (explore 60 s acc).
+Proof.
+  intro R. apply explore_has_enough_fuel. pose proof (mu_bound _ _ R) as B.
+  assert (resp_capn = 1%nat) by (vm_compute; reflexivity). lia.
+Qed.
